@@ -4,6 +4,7 @@ import os
 
 from perception_eval.common.label import AutowareLabel
 from perception_eval.evaluation.matching import MatchingMode
+from perception_eval.evaluation.matching import MatchingLabelPolicy
 from perception_eval.evaluation.metrics.detection.ap import Ap
 from perception_eval.evaluation.metrics.detection.tp_metrics import TPMetricsAph
 from perception_eval.evaluation.result.object_result import DynamicObjectWithPerceptionResult
@@ -119,6 +120,20 @@ def check_case(case, acc):
     acc.exec()
     if len(a.tp_list) != 1 or abs(a.tp_list[0] - want_w) > TW:
         bad("ap-tp-list:" + fk, "Ap(TPMetricsAph).tp_list=%s, expected [%.9f]" % (a.tp_list, want_w))
+    # label policies under which an estimate of another class is a TP for this ground truth: the heading weight is still that of the
+    # two physical orientations
+    if r == 0.0 and p == 0.0 and not case["neg_e"]:
+        for elab, pol in (("UNKNOWN", MatchingLabelPolicy.ALLOW_UNKNOWN), ("BUS", MatchingLabelPolicy.ALLOW_ANY), ("UNKNOWN", MatchingLabelPolicy.ALLOW_ANY)):
+            em = G.mk3d(dict(x=5.0, y=1.0, yaw=ye, label=elab, uuid="e", score=0.9), fr, ego)
+            rm = DynamicObjectWithPerceptionResult(em, g, pol, transforms=tf)
+            acc.exec(2)
+            wm = TPMetricsAph().get_value(rm)
+            am = Ap(TPMetricsAph(), [[rm]], 1, [AutowareLabel.CAR], MatchingMode.CENTERDISTANCE, [1.0])
+            if not rm.is_label_correct:
+                bad("policy:label-not-accepted", "%s estimate / CAR ground truth under %s is not label-correct" % (elab, pol.name))
+            elif abs(wm - want_w) > TW or len(am.tp_list) != 1 or abs(am.tp_list[0] - want_w) > TW:
+                bad("aph-weight:mixed-label:" + fk, "%s estimate matched to a CAR ground truth under %s: heading weight %.9f, Ap tp_list %s, expected 1-d/pi=%.9f" % (
+                    elab, pol.name, wm, am.tp_list, want_w))
     # two frames of one track: in the second frame the same ground truth (same uuid) and its estimate have both turned by 90 degrees,
     # so the heading weight of the pair is unchanged; one Ap (one TPMetricsAph instance) scores both frames
     if r == 0.0 and p == 0.0:
